@@ -1030,6 +1030,50 @@ def rule_U2b(ctx, rule: str = "U2") -> None:
         ctx.proved(rule, name, mod.loc(load), f"{n} paths")
 
 
+def rule_U11(ctx, rule: str = "U11") -> None:
+    """what load keeps in _unknown_fields only ever grows: every store to it inside Message.load extends its current value (`+=`, or
+    `= self._unknown_fields + ..`).  A plain assignment from a value collected on the side (a local list started from the old
+    content and joined after the loop) is an extension only if nothing else stores to the attribute in between - otherwise what
+    the other site appended (the record of a known number with a wire type that does not fit) is overwritten"""
+    mod = ctx.repo.mod(M_INIT)
+    load = mod.func("Message.load")
+    ctx.analysed("Message.load")
+
+    def is_attr(e: ast.AST) -> bool:
+        return isinstance(e, ast.Attribute) and e.attr == "_unknown_fields" and isinstance(e.value, ast.Name) and e.value.id == "self"
+
+    extends, replaces = [], []
+    for st in ast.walk(load):
+        if isinstance(st, ast.AugAssign) and is_attr(st.target):
+            extends.append(st)
+        elif isinstance(st, ast.Assign) and any(is_attr(t) for t in st.targets):
+            v = st.value
+            if isinstance(v, ast.BinOp) and isinstance(v.op, ast.Add) and is_attr(v.left):
+                extends.append(st)
+            else:
+                replaces.append(st)
+    ctx.count(len(extends) + len(replaces))
+    name = "load:unknown-fields-only-extended"
+    if not extends and not replaces:
+        ctx.inconclusive(rule, name, "no store to self._unknown_fields in Message.load", mod.loc(load))
+    elif replaces and (extends or len(replaces) > 1):
+        other = (extends or replaces[1:])[0]
+        ctx.refuted(rule, name, ast.unparse(replaces[0])[:80], mod.loc(replaces[0]),
+                    f"`{ast.unparse(replaces[0])[:100]}` replaces _unknown_fields with a value collected on the side while `{ast.unparse(other)[:80]}` (line {other.lineno}) stores to the attribute "
+                    "as well: whichever record the other site kept is overwritten when both occur in one input - e.g. a known field number with a non-fitting wire type next to an unknown number",
+                    "bytes with field 1 as a length-delimited record (declared int32) and an unknown field 15")
+    elif replaces:
+        # a single deferred write-back: it has to start from the old content
+        r = replaces[0]
+        reads_old = any(is_attr(x) for a in ast.walk(load) if isinstance(a, (ast.Assign, ast.AnnAssign)) and getattr(a, "value", None) is not None and a is not r for x in ast.walk(a.value))
+        if reads_old:
+            ctx.proved(rule, name, mod.loc(r), "one deferred write-back of a local collection that starts from the old content; no other store")
+        else:
+            ctx.refuted(rule, name, "old-content-dropped", mod.loc(r), f"`{ast.unparse(r)[:100]}` does not start from the unknown fields the message already holds (a second load / parse into the same message loses them)")
+    else:
+        ctx.proved(rule, name, mod.loc(extends[0]), f"{len(extends)} stores, each extends the current value")
+
+
 def rule_U5(ctx) -> None:
     """the field lookup is redone for every field read: no use of a lookup result left over by an earlier iteration"""
     from .codec import _load_paths
